@@ -7,6 +7,11 @@ import DatamonVerif.Drv.C19
 import DatamonVerif.Drv.C20
 import DatamonVerif.Drv.C16
 import DatamonVerif.Drv.C11
+import DatamonVerif.Drv.C08
+import DatamonVerif.Drv.C18
+import DatamonVerif.Drv.C12
+import DatamonVerif.Drv.C09
+import DatamonVerif.Drv.C05
 open DV
 
 def main (args : List String) : IO UInt32 := do
@@ -24,4 +29,9 @@ def main (args : List String) : IO UInt32 := do
   | ["model", "C20"] => loop C20.handler inp out C20.handler.init; return 0
   | ["model", "C16"] => loop C16.handler inp out C16.handler.init; return 0
   | ["model", "C11"] => loop C11.handler inp out C11.handler.init; return 0
+  | ["model", "C08"] => loop C08.handler inp out C08.handler.init; return 0
+  | ["model", "C18"] => loop C18.handler inp out C18.handler.init; return 0
+  | ["model", "C12"] => loop C12.handler inp out C12.handler.init; return 0
+  | ["model", "C09"] => loop C09.handler inp out C09.handler.init; return 0
+  | ["model", "C05"] => loop C05.handler inp out C05.handler.init; return 0
   | _ => IO.eprintln "usage: dvdriver model <Cxx>"; return 2
